@@ -59,6 +59,7 @@ type Ctx struct {
 	printed    int
 	inconc     []string
 	replayN    int
+	sigs       map[string]bool
 }
 
 // New creates the context from the environment (VERIF_TIER, VERIF_SEED).
@@ -161,7 +162,7 @@ func (c *Ctx) Violation(sig map[string]string, what string, replay any) {
 		}
 	}
 	c.violations++
-	if c.printed < 8 {
+	if c.printed < 8 || os.Getenv("VERIF_ALLSIG") != "" && c.sigSeen(sig) {
 		c.printed++
 		dir := filepath.Join(Root, "replays", c.ID)
 		os.MkdirAll(dir, 0o755)
@@ -303,4 +304,37 @@ func (c *Ctx) Finish() {
 	}
 	fmt.Fprintf(os.Stderr, "[%s] ok: %d evaluations, %d distinct non-trivial, %d states, %d traces, %.1fs\n", c.ID, c.Evals, c.Distinct, c.States, c.Traces, time.Since(c.Start).Seconds())
 	os.Exit(0)
+}
+
+// PickS returns q in the quick tier and t in the thorough tier.
+func (c *Ctx) PickS(q, t string) string {
+	if c.Thorough() {
+		return t
+	}
+	return q
+}
+
+// KnownHits returns the ids of known findings reproduced so far.
+func (c *Ctx) KnownHits() []string {
+	c.mu.Lock()
+	defer c.mu.Unlock()
+	var ids []string
+	for id := range c.knownHit {
+		ids = append(ids, id)
+	}
+	return ids
+}
+
+// sigSeen reports (once per distinct signature) whether sig is new; used
+// with VERIF_ALLSIG=1 to list one violation per distinct signature.
+func (c *Ctx) sigSeen(sig map[string]string) bool {
+	if c.sigs == nil {
+		c.sigs = map[string]bool{}
+	}
+	k := fmt.Sprint(sig)
+	if c.sigs[k] {
+		return false
+	}
+	c.sigs[k] = true
+	return true
 }
